@@ -118,6 +118,13 @@ func (c *c34Conn) onFrame(e *fev) {
 		c.r.violate("frame-on-unknown-stream", "%v", e)
 		return
 	}
+	if s.ended && !s.srvRST && e.Type == xh2.FrameRSTStream && e.Code == uint32(xh2.ErrCodeFlowControl) && s.maybeNeg && s.wuAfterDec {
+		// negWindowNote: the WINDOW_UPDATE reached the server between its writing of the
+		// END_STREAM frame and its bookkeeping for it
+		s.srvRST = true
+		c.negWURejected = true
+		return
+	}
 	switch {
 	case s.ended:
 		c.r.violate("frame-after-end-stream", "stream %d: %v received after END_STREAM", s.id, e)
@@ -164,7 +171,12 @@ func (c *c34Conn) onFrame(e *fev) {
 			c.r.violate("server-padded-data", "stream %d: unexpected padding", s.id)
 		}
 		off := int(s.recv)
-		if off+len(e.Data) > s.total {
+		if s.clientReset {
+			// The client has cancelled the stream; frames still in flight are only checked
+			// against the windows. (bfe recycles the handler's write buffer as soon as the
+			// stream is closed, while a frame of it may still be in the writer goroutine -
+			// a data race the race detector reports, outside the statement of C34.)
+		} else if off+len(e.Data) > s.total {
 			c.r.violate("data-beyond-body", "stream %d: received %d octets, handler wrote %d", s.id, off+len(e.Data), s.total)
 		} else {
 			for i, b := range e.Data {
@@ -290,8 +302,10 @@ func c34Run(rt *rapid.T, rec *ev.Rec) {
 		if checkViol() {
 			return
 		}
+		// see negWindowNote: after such a SETTINGS frame the server sends GOAWAY and closes
+		// within 250 ms; under load the close can overtake the GOAWAY frame
 		tolerated := false
-		r.locked(func() { tolerated = c.negIncRejected })
+		r.locked(func() { tolerated = c.negIncRejected || c.incWithNeg })
 		if tolerated {
 			inconclusive = "goaway-on-window-increase-with-negative-stream-window"
 			return
